@@ -535,4 +535,51 @@ theorem toMarrow_decode_partial' (ext : Ext) (fields : List Field) (rows : List 
   toMarrow_decode_partial ext fields rows arrs hwfb
     (fun root hr => (root_facts ext fields rows root hmap hschema hpush (hwfb root hr) (hstrict root hr) hr).2.1) h
 
+/-! ### a worked instance: the hypotheses are jointly satisfiable on a real run
+
+Two records for the schema `{a: Int32?, l: List<Int8>}` (second record without `a`).  The model run is evaluated by
+`decide` (`exRun`), `to_marrow` succeeds (`exOk`), and every hypothesis of `C03_wf_root_partial` other than the state
+invariant `WFB` (owned by agent-refine) is discharged for the resulting builder state. -/
+
+def exFields : List Field := [.mk "a" .int32 true [], .mk "l" (.list (.mk "element" .int8 false [])) false []]
+def exRows : List SVal :=
+  [.record "R" (.cons "a" 0 (.int .i32 1) (.cons "l" 1 (.seq (.cons (.int .i8 5) (.cons (.int .i8 6) .nil))) .nil)),
+   .record "R" (.cons "l" 1 (.seq .nil) .nil)]
+def exRoot : B :=
+  .struct "$" 2 none
+    (.cons (.leaf "$.a" (.int .i32) (some [true, false]) [1, 0]) ⟨"a", true, []⟩
+      (.cons (.list "$.l" false ⟨"element", false, []⟩ none [0, 2, 2] (.leaf "$.l.element" (.int .i8) none [5, 6]))
+        ⟨"l", false, []⟩ .nil))
+    [some ("a", 0), some ("l", 1)] 2 [false, true]
+
+theorem exRun : runRows {} exFields exRows = .ok exRoot := by decide
+
+theorem toMarrow_eq (ext : Ext) (fields : List Field) (rows : List SVal) :
+    toMarrow ext fields rows = (do
+      let root ← runRows ext fields rows
+      let (arrs, _) ← buildArrays ext root
+      pure arrs) := by
+  simp only [toMarrow, runRows, bind_assoc]
+
+theorem exOk : (toMarrow {} exFields exRows).isOk = true := by
+  rw [toMarrow_eq, exRun]
+  simp [exRoot, buildArrays, finishFields, finish, bind, Except.bind, pure, Except.pure, R.isOk]
+
+example (hw : WFB exRoot) : ∀ arrs, toMarrow {} exFields exRows = .ok arrs →
+    arrs.length = exFields.length ∧ ∃ n : Nat, ∀ (j : Nat) (f : Field) (a : Arr), exFields[j]? = some f →
+      arrs[j]? = some a → WF f a = true ∧ (decodeAll a).length = n := by
+  intro arrs h
+  refine C03_wf_root_partial {} exFields exRows arrs ?_ ?_ ?_ ?_ h
+  all_goals (intro root hr; rw [exRun] at hr; cases hr)
+  · exact hw
+  · simp only [exRoot, exFields, Fields.ofList, Lemmas.C03.BuiltFor]
+    refine ⟨_, rfl, rfl, ?_⟩
+    simp only [Lemmas.C03.BuiltForL, Lemmas.C03.BuiltFor, metaOfField, Field.dataType, Field.nullable,
+      Lemmas.C03.leafDT, Lemmas.C03.intDT, Option.isSome, and_self, true_and]
+    refine ⟨⟨Field.mk "element" .int8 false [], by simp, rfl, rfl, rfl⟩, trivial⟩
+  · simp [exRoot, Lemmas.C03.Sound, Lemmas.C03.SoundL]
+  · exact Lemmas.C03.runRows_WFX {} (by constructor <;> (intros; rename_i h; cases h)) exFields exRows exRoot
+      (by simp [exRows, Lemmas.C03.SValOK, Lemmas.C03.SFieldsOK, Lemmas.C03.SValsOK, Lemmas.C03.ScalarOK, IntTy.inRange,
+        IntTy.min, IntTy.max]) exRun (by simp [exRoot, Lemmas.C03.ViewSmall, Lemmas.C03.ViewSmallL])
+
 end SaModel.Props.C03
